@@ -130,7 +130,7 @@ fn decode_with_cuts(streamb: &[u8], cuts: &[usize]) -> Outcome {
             continue;
         }
         items.extend(d.feed(&streamb[prev..c]));
-        if cuts.len() < 600 {
+        if cuts.len() < 600 && streamb.len() < 20_000 {
             // (formatting the state is linear in the buffered message)
             states_seen.push(hash_str(&d.codec.debug_state()));
         }
@@ -799,8 +799,10 @@ impl Prop for C02 {
                 v.push(json!({"kind": "codec_sweep", "stream": st, "pairs": true, "from": a, "to": a + step}));
                 a += step;
             }
-            v.push(json!({"kind": "codec_strides", "stream": st, "seed": seed,
-                          "randoms": tier.pick(200, 5000)}));
+            for b in 0..tier.pick(1u64, 10) {
+                v.push(json!({"kind": "codec_strides", "stream": st, "seed": seed ^ (b << 32),
+                              "randoms": tier.pick(200, 500)}));
+            }
         }
         for ty in ["PULL", "SUB", "DEALER", "ROUTER", "REP", "XPUB", "REQ", "PUB"] {
             let variants: &[u64] = if ty == "PUB" { &[0] } else { tier.pick(&[0, 2], &[0, 1, 2]) };
